@@ -153,6 +153,16 @@ func invalidProbes(allArities bool) func(x *drv.World) []model.Op {
 			for n := 0; n < 3; n++ {
 				ops = append(ops, model.Op{K: model.OpInvalid, Inv: drv.InvEmpty, E: e, N: n})
 			}
+			// duplicate components in one list
+			for _, c := range []ct.Comp{ct.P, ct.Q} {
+				if cs.Has(c) && !cs.Has(ct.T9) {
+					for n := 0; n < 4; n++ {
+						ops = append(ops, model.Op{K: model.OpInvalid, Inv: drv.InvDupRemove, E: e, N: n, Rm: ct.Of(c)})
+					}
+				} else if !cs.Has(c) {
+					ops = append(ops, model.Op{K: model.OpInvalid, Inv: drv.InvDupAdd, E: e, N: 0, Cs: ct.Of(c)})
+				}
+			}
 			if !cs.Has(ct.R1) {
 				for _, path := range []model.Path{model.PathUnsafe, model.PathMapN, model.PathMap} {
 					ops = append(ops, model.Op{K: model.OpInvalid, Inv: drv.InvNoTarget, N: 1, E: e, Path: path, Cs: ct.Of(ct.R1)})
@@ -174,6 +184,7 @@ func invalidProbes(allArities bool) func(x *drv.World) []model.Op {
 				ops = append(ops, model.Op{K: model.OpInvalid, Inv: drv.InvDeadTgt, N: 0, Path: path, Cs: ct.Of(ct.R1), T: rel(ct.R1, d)})
 			}
 		}
+		ops = append(ops, model.Op{K: model.OpInvalid, Inv: drv.InvDupAdd, N: 1, Cs: ct.Of(ct.P)})
 		ops = append(ops, model.Op{K: model.OpInvalid, Inv: drv.InvNoTarget, N: 0, Path: model.PathMapN, Cs: ct.Of(ct.P, ct.R1)})
 		ops = append(ops, model.Op{K: model.OpInvalid, Inv: drv.InvNoTarget, N: 0, Path: model.PathUnsafe, Cs: ct.Of(ct.P, ct.R1)})
 		return ops
